@@ -1,6 +1,7 @@
 import ElvisVerif.Props.C03Release
 import ElvisVerif.Props.C01Full
 import ElvisVerif.Lemmas.TcpRelOrder
+import ElvisVerif.Lemmas.TcpRelMirror
 import ElvisVerif.Lemmas.TcpRelData
 import ElvisVerif.Lemmas.TcpRelData2
 import ElvisVerif.Lemmas.TcpRelLoss
@@ -32,7 +33,9 @@ open Tcb Elvis.Tcp.Fin
       side) and `releaseRoundBA` (close B, close A, …) are defined and end in the same state `s2`;
     * **sequential close**: `releaseRoundSeq` (close A; two exchange phases: A FIN-WAIT-2, B has seen the end of the
       stream and is in CLOSE-WAIT; close B; two exchange phases: B's TCB deleted by A's ACK of its FIN; `2·MSL + 1` ms
-      on A's side: A's TCB deleted by the TIME-WAIT timeout) is defined;
+      on A's side: A's TCB deleted by the TIME-WAIT timeout) is defined, and so is its mirror image `releaseRoundSeqBA`
+      (B's application closes first, A's after it has seen the end of the stream; A's TCB deleted by B's ACK of its FIN,
+      B's by the TIME-WAIT timeout);
     and in each case **both TCBs are deleted**, the streams are complete and exact (`delivered = submitted` in both
     directions, `submitted` being the logs of the starting state `s`), exactly four more segments have been emitted, and
     the final state is reachable from `s` by a `FinRun`.  Virtual time spent on each side from `s` to the deletion:
@@ -52,6 +55,9 @@ theorem c03_release_after_convergence (ia ib : Seq) (ma mb : U16) (simultaneous 
         s2.a.submitted = s.a.submitted ∧ s2.b.submitted = s.b.submitted ∧ s2.historyLen = s1.historyLen + 4) ∧
       (∃ s2, releaseRoundSeq s1 = .ok s2 ∧ FinRun s s2 ∧
         s2.a.tcb = none ∧ s2.b.tcb = none ∧ s2.b.delivered = s2.a.submitted ∧ s2.a.delivered = s2.b.submitted ∧
+        s2.a.submitted = s.a.submitted ∧ s2.b.submitted = s.b.submitted ∧ s2.historyLen = s1.historyLen + 4) ∧
+      (∃ s2, releaseRoundSeqBA s1 = .ok s2 ∧ FinRun s s2 ∧
+        s2.a.tcb = none ∧ s2.b.tcb = none ∧ s2.b.delivered = s2.a.submitted ∧ s2.a.delivered = s2.b.submitted ∧
         s2.a.submitted = s.a.submitted ∧ s2.b.submitted = s.b.submitted ∧ s2.historyLen = s1.historyLen + 4) := by
   have h50 : SPACE_FOR_HEADERS = 50 := rfl
   obtain ⟨rounds, s1, ta, tb, hfold, p1, hd, _, _, sa1, sb1, hlen, hsum, _, _⟩ :=
@@ -65,10 +71,20 @@ theorem c03_release_after_convergence (ia ib : Seq) (ma mb : U16) (simultaneous 
     (by omega) (by omega) h0 hrun1 h31' ta tb hd
   obtain ⟨s3, e3, r3, na3, nb3, d13, d23, sa3, sb3, hl3⟩ := c03_release_sequential_partial ia ib ma mb simultaneous sys0
     s1 rs (by omega) (by omega) h0 hrun1 h31' ta tb hd
-  exact ⟨rounds, s1, ta, tb, hfold, p1, hd, hlen, hsum,
+  refine ⟨rounds, s1, ta, tb, hfold, p1, hd, hlen, hsum,
     ⟨s2, e2, releaseRoundBA_of_releaseRound s1 s2 e2, (FinRun.of_plain p1).trans r2, na, nb, d1, d2, sa.trans sa1,
       sb.trans sb1, hl⟩,
-    ⟨s3, e3, (FinRun.of_plain p1).trans r3, na3, nb3, d13, d23, sa3.trans sa1, sb3.trans sb1, hl3⟩⟩
+    ⟨s3, e3, (FinRun.of_plain p1).trans r3, na3, nb3, d13, d23, sa3.trans sa1, sb3.trans sb1, hl3⟩, ?_⟩
+  have hg := good_of_reach ia ib ma mb simultaneous sys0 s1 rs (by omega) (by omega) h0 hrun1 h31'
+  obtain ⟨qa, qb⟩ := quiet_of_done hg ta tb hd
+  obtain ⟨x1, x2⟩ := done_stream hg ta tb hd
+  obtain ⟨s4, e4, r4, na4, nb4, ya, yb, za, zb, hl4⟩ := release_sequential_BA s1 ta tb hd.steady.ha hd.steady.hb qa qb
+  have ya' : s4.a.submitted = s1.a.submitted := ya
+  have yb' : s4.b.submitted = s1.b.submitted := yb
+  have za' : s4.a.delivered = s1.a.delivered := za
+  have zb' : s4.b.delivered = s1.b.delivered := zb
+  exact ⟨s4, e4, (FinRun.of_plain p1).trans r4, na4, nb4, by rw [zb', ya']; exact x1, by rw [za', yb']; exact x2,
+    ya'.trans sa1, yb'.trans sb1, hl4⟩
 
 /-! ## non-vacuity -/
 
@@ -85,6 +101,10 @@ def afterConvCheck : Bool :=
       | .ok s2 => s2.a.tcb.isNone && s2.b.tcb.isNone && s2.b.delivered == db && s2.a.delivered == da
       | .error _ => false) &&
     (match releaseRoundSeq s' with
+      | .ok s2 => s2.a.tcb.isNone && s2.b.tcb.isNone && s2.b.delivered == db && s2.a.delivered == da &&
+          s2.historyLen == s'.historyLen + 4
+      | .error _ => false) &&
+    (match releaseRoundSeqBA s' with
       | .ok s2 => s2.a.tcb.isNone && s2.b.tcb.isNone && s2.b.delivered == db && s2.a.delivered == da &&
           s2.historyLen == s'.historyLen + 4
       | .error _ => false)
